@@ -158,6 +158,11 @@ def extra_checks(eng):
     ok = all(k.get(n) in ("generator", "map") for n in ("__getattr__", "__call__"))
     yield ("translator Stream.__getattr__/__call__ iterator kind (%s / %s)" % (k.get("__getattr__"), k.get("__call__")), ok,
            "unknown shape of the returned Stream in lazy_stream.py: %r" % (k,))
+    try:
+        n, bad = scalar_function_checks()
+    except Exception as e:
+        n, bad = 0, ["check could not run: %r" % (e,)]
+    yield ("lazy_math element functions vs independent oracle (%d calls incl. error branches)" % n, not bad, "; ".join(bad[:4]))
 
 
 def mark_gen(req, node):
@@ -571,7 +576,7 @@ def generate_expr(rng, tier, scale=1):
     b = B()
     cases = []
     leaf, stream_of = b.leaf, b.stream_of
-    per = 1 if tier == "quick" else 4
+    per = 2 if tier == "quick" else 6
 
     def elems(pool, m):
         base = EXC_POOLS[pool][0]
@@ -628,7 +633,7 @@ def generate_expr(rng, tier, scale=1):
             for l in ["abs", "map:neg", "map:float", "attr:real", "attr:numerator", "call"]:
                 emit({"k": "meth", "l": l, "s": sleaf(pool)}, pool, "meth:" + l.split(":")[0])
     # nested trees: an inner operation raises, the outer ones go on
-    ntree = (160 if tier == "quick" else 3000) * scale
+    ntree = (450 if tier == "quick" else 5000) * scale
     for _ in range(ntree):
         pool = rng.choice([p for p in EXC_NAMES if p != "boom-scalar"])
         ds = _dunders_of(pool, None)
@@ -703,7 +708,7 @@ def bcast_case(func, kind, xs, route="pos", n=8, **kw):
 def generate_bcast(rng, tier, scale=1):
     b = B()
     cases = []
-    reps = (1 if tier == "quick" else 6) * scale
+    reps = (2 if tier == "quick" else 10) * scale
     for fn in sorted(BC_POOLS):
         if fn not in b.BFUNCS:
             continue
@@ -847,11 +852,19 @@ def classify(c, io, drv):
         osort = "/scalar" if p["o"]["k"] in ("scalar", "ignored") else "/iterable"
     if "err" in io:
         return "exprE:%s%s:refused:%s" % (what, osort, io["err"])
-    gen_nodes = [nd for nd in b.nodes(p) if nd["k"] == "meth" and (nd["l"].startswith("attr:") or nd["l"] == "call")]
+    gen_nodes = [nd for nd in b.nodes(p) if nd["k"] == "meth" and (nd["l"].startswith("attr:") or nd["l"] == "call") and meth_is_gen(nd["l"])]
     nx = io.get("next", [])
     first = next((i for i, o in enumerate(nx) if o[0] == "r"), None)
-    if gen_nodes and first is not None and nx[first + 1:first + 2] == [["s"]]:
-        return "exprE:attribute-or-call:ends-at-first-element-exception"
+    spec = drv.get("spec", {})
+    if gen_nodes and spec.get("outs") != spec.get("outsP"):
+        # the code's reading (generator expressions end at an exception) differs from the property's reading on this input, and
+        # the real code does exactly what the code-shaped model says: the recorded finding, wherever the node sits in the tree
+        try:
+            model_ok = not any(k == "model" for k, _d in compare_expr(c, io, drv))
+        except Exception:
+            model_ok = False
+        if model_ok:
+            return "exprE:attribute-or-call:ends-at-first-element-exception"
     if first is not None and nx[first + 1:first + 2] == [["s"]]:
         return "exprE:%s%s:ends-at-first-element-exception" % (what, osort)
     return "exprE:%s%s:wrong-outcome" % (what, osort)
@@ -930,3 +943,116 @@ def tally_meta(eng, c, io):
     eng.count("meta_builders", "+".join(c["have"]) or "none")
     eng.count("meta_outcome", ("raised:%s" % io["err"]) if "err" in io else "class with %s dunders" % min(len(io["installed"]), 35))
     eng.count("meta_query", " ".join(c["ops"]) or "(empty)")
+
+
+# ------------------------------------------------------------------------------------------------
+# the element functions lazy_math DEFINES itself (log, log1p, log10, log2, factorial, dB10, dB20, sign), incl. their error
+# branches, against an independent oracle written here from their docstrings / the mathematics (values through math / cmath,
+# tolerance 1e-12).  Not modelled in Lean (the Lean model is about wiring, not about python's numbers): a structural check.
+# ------------------------------------------------------------------------------------------------
+def _oracle_log(x, base=None):
+    import cmath
+    import math
+    if base is not None and (base <= 0 or base == 1):
+        raise ValueError("invalid base")
+    if x == 0:
+        return -float("inf")
+    if isinstance(x, complex) or x < 0:
+        return cmath.log(x) if base is None else cmath.log(x) / cmath.log(base)
+    return math.log(x) if base is None else math.log(x) / math.log(base)
+
+
+def _oracle_factorial(n):
+    if isinstance(n, float) and n.is_integer():
+        n = int(n)
+    if isinstance(n, bool) or not isinstance(n, int):
+        if isinstance(n, bool):
+            n = int(n)
+        else:
+            raise TypeError("non-integer")
+    if n < 0:
+        raise ValueError("negative")
+    r = 1
+    for k in range(2, n + 1):
+        r *= k
+    return r
+
+
+def _oracle_db(mult):
+    import math
+
+    def f(data):
+        return mult * math.log10(abs(data)) if data != 0 else -float("inf")
+    return f
+
+
+def _oracle_log1p(x):
+    import cmath
+    import math
+    if x == -1:
+        return -float("inf")
+    if isinstance(x, complex) or x < -1:
+        return cmath.log(1 + x)
+    return math.log1p(x)
+
+
+def _oracle_sign(x):
+    return 1 if x > 0 else -1 if x < 0 else 0
+
+
+def scalar_function_checks():
+    b = B()
+    X = [1.0, 8.0, 0.5, 0, 0.0, -1.0, -8, 2, 10, 1000, 3 + 4j, -2j, True, Fraction(1, 8), 1e-300, float("inf"), None, "x"]
+    BASES = [None, 2, 10, 0.5, 1, 1.0, 0, -2, True, Fraction(1, 2), 1e-9, float("inf")]
+    grid = []
+    for x in X:
+        for base in BASES:
+            grid.append(("log", _oracle_log, (x,) if base is None else (x, base)))
+            if base is not None:
+                grid.append(("ln", _oracle_log, (x, base)))
+        grid.append(("log10", lambda v: _oracle_log(v, 10), (x,)))
+        grid.append(("log2", lambda v: _oracle_log(v, 2), (x,)))
+        grid.append(("log1p", _oracle_log1p, (x,)))
+        grid.append(("dB10", _oracle_db(10), (x,)))
+        grid.append(("dB20", _oracle_db(20), (x,)))
+        if not isinstance(x, complex):
+            grid.append(("sign", _oracle_sign, (x,)))
+    for n in [0, 1, 2, 5, 10, 20, -1, -5, 3.0, -2.0, 2.5, True, 0.0, None, "3", Fraction(3), 1 + 0j, 25]:
+        grid.append(("factorial", _oracle_factorial, (n,)))
+
+    def run(f, args):
+        try:
+            return ("v", f(*args))
+        except Exception as e:
+            return ("r", err_kind(e))
+
+    def same(a, c):
+        if a[0] != c[0]:
+            return False
+        if a[0] == "r":
+            return a[1] == c[1]
+        u, v = a[1], c[1]
+        if isinstance(u, bool) or isinstance(v, bool):
+            u, v = int(u), int(v)
+        if isinstance(u, (int, Fraction)) and isinstance(v, (int, Fraction)):
+            return u == v
+        try:
+            if u != u and v != v:
+                return True
+            if u == v:
+                return True
+            return abs(u - v) <= 1e-12 * max(1.0, abs(u), abs(v))
+        except Exception:
+            return False
+    bad, n = [], 0
+    for name, oracle, args in grid:
+        try:
+            f = b.bfun_scalar(name)
+        except Exception as e:
+            bad.append("%s: not available (%s)" % (name, err_kind(e)))
+            continue
+        n += 1
+        got, want = run(f, args), run(oracle, args)
+        if not same(got, want):
+            bad.append("%s%r: impl %r, oracle %r" % (name, args, got, want))
+    return n, bad
